@@ -305,6 +305,7 @@ pub fn run_clock(cs: &ClockScn) -> (History, Vec<(u8, SpawnPlan)>) {
     let sc = dummy_scenario(cs, n_subs);
     let w = World::new(&sc);
     let exec = VExec::new(&w);
+    w.set_history_cap(world::HISTORY_CAP);
     {
         // a handler that takes its time: virtual time moves on to the next expiry while the handler is running
         let e = exec.clone();
